@@ -11,6 +11,16 @@ def hook_commits():
     return [l.split()[0] for l in out.splitlines() if l.split(" ", 1)[1].startswith("verif:")]
 
 CHECKS = {
+ "C01": dict(engine="projsim", level="exploration", section="5 C01", technique="model-based property testing (rapid): generated projects x generated edit/build histories, differential against a from-scratch build of the same tree",
+   text="Whole dawn projects (multi-package DAGs, helpers, closures, defaults, globals, flags, source dirs, generated files) and histories of edits interleaved "
+        "with sub-target, failing, dry, always and child-process builds run through the real Load/Run; every body writes a digest of all its inputs, so a "
+        "stale target shows as a byte difference against a clean twin build. Also: a dependent of a target that executed in a build executes after it.",
+   note="Bodies use only the injected vf builtins and depend only on inputs the property lists; <= 4 packages, <= 8 targets, <= 16 operations per history."),
+ "C02": dict(engine="projsim", level="exploration", section="5 C02", technique="metamorphic property testing (rapid): build, apply no-op-class operations, rebuild in a fresh process under a generated package load order; nothing may execute",
+   text="Generated projects are built in a child process, changed only by no-op-class operations (touch, same-content rewrite, recreate, comments, blank lines, "
+        "docstrings, edits outside the closure in other packages, dry run, GC, index-only load), and rebuilt in another child process with a generated package "
+        "load order; no body may run and no TargetEvaluating may be reported in the closure.",
+   note="Load order is controlled at package granularity (gates in generated BUILD files); same-file edits of other targets are not claimed as no-ops."),
  "C04": dict(engine="cosched", level="exploration", section="5 C04", technique="schedule exploration: generated graphs x generated schedules on a cooperative token scheduler (rapid), plus delay-injection runs and -race in thorough",
    text="The real runner.Run executes generated acyclic graphs with recording Targets while a cooperative scheduler that owns every scheduling point of "
         "runner.go takes each decision from a generated choice vector (deterministic, shrinkable, exact deadlock detection); a third of the cases run free "
@@ -104,6 +114,7 @@ def main():
         },
         "engines": [
             {"name": "starval", "path": "harness/starval", "serves_properties": ["C07", "C15", "C16"], "kind_free_text": "Starlark value generator (plain-data descriptors), builder with sharing/cycles/host objects, isomorphism oracle"},
+            {"name": "projsim", "path": "harness/projsim", "serves_properties": ["C01", "C02", "C03", "C08", "C13", "C14", "C18"], "kind_free_text": "generated dawn projects, edit/build history model, in-process and child-process executor with injected vf builtins, clean-twin builds, crash injection"},
             {"name": "cosched", "path": "harness/cosched + harness/rungraph", "serves_properties": ["C04", "C05", "C06", "C09", "C20"], "kind_free_text": "cooperative token scheduler / delay injector driven by verif-tagged hook call sites; generated graphs executed on the real runner"},
             {"name": "mvssim", "path": "harness/mvssim", "serves_properties": ["C10", "C11"], "kind_free_text": "generated requirement universes served through vcs.Repository, reference MVS and query resolver"},
             {"name": "ev", "path": "harness/ev", "serves_properties": sorted(CHECKS), "kind_free_text": "evidence collector, rapid driver, replay files, known-findings handling"},
